@@ -37,7 +37,8 @@ def gen(rng, tier):
     npeers = rng.randrange(2, 4)
     nss = NSS[:rng.randrange(1, 3)]
     cfg = {'mode': mode, 'nss': nss, 'lat': rng.randrange(len(LATS)),
-           'coro_cb': rng.random() < 0.5}
+           'coro_cb': rng.random() < 0.5,
+           'cb_raise': rng.choice([0, 0, 2, 4])}    # out of 8
     ops = []
     for p in range(npeers):
         ops.append(['open', p])
@@ -118,14 +119,23 @@ def _run(case, cfg, w):
 
     def make_cb(tag):
         coroutine = cfg['coro_cb'] and w.mode == 'async'
+        def maybe_raise():
+            # fault: the application's callback fails (at most once is still
+            # the rule: a repeated ACK must not run it again)
+            if cfg.get('cb_raise') and w.choices.chance(
+                    'faults', cfg['cb_raise'], 8, 'cb_raise'):
+                w.rec.count('fault.callback_raise')
+                raise RuntimeError('injected callback failure')
         if coroutine:
             async def cb(*args):
                 ev = w.rec.add('cb', tag=tag, args=args)
                 cb_log.append((tag, list(args), ev['seq']))
+                maybe_raise()
         else:
             def cb(*args):
                 ev = w.rec.add('cb', tag=tag, args=args)
                 cb_log.append((tag, list(args), ev['seq']))
+                maybe_raise()
         return cb
 
     def learn_ids(mark, where):
@@ -262,6 +272,9 @@ def _run(case, cfg, w):
                     v.add('callback_fired_for_wrong_ack', '%s (id %r, %s): '
                           'fired %s' % (where, id_, kind, fired), kind)
             for e in w.rec.errors[n_err:]:
+                if match and 'injected callback failure' in (
+                        e.get('exc') or ''):
+                    continue
                 v.add('ack_caused_error', '%s (id %r, %s): %s %s in %s'
                       % (where, id_, kind, e['msg'], e.get('exc'),
                          e.get('site')),
@@ -337,12 +350,16 @@ def _run(case, cfg, w):
                 tag not in expected_cb:
             v.add('callback_without_matching_ack', tag)
     for e in w.rec.errors:
+        if 'injected callback failure' in (e.get('exc') or ''):
+            continue
         v.add('error_logged', '%s %s in %s' % (e['msg'], e.get('exc'),
                                                e.get('site')),
               '%s@%s' % ((e.get('exc') or e['msg']).split(':')[0][:40],
                          e.get('site')))
     return {'violations': v.items, 'digest': w.rec.digest.hex(),
-            'nontrivial': nontrivial, 'stats': {'acks': stats},
+            'nontrivial': nontrivial, 'stats': {'acks': stats, 'faults': {
+                k: n for k, n in w.rec.counters.items()
+                if k.startswith('fault.')}},
             'sim_time': w.now() - 1_700_000_000.0,
             'cfg': '%s/%dns' % (cfg['mode'], len(cfg['nss'])),
             'choices': w.choices.dump(), 'log': w.rec.dump_log()}
